@@ -13,26 +13,26 @@ exec(open(os.path.join(V, "tools", "checks_table.py")).read())
 
 # families added to the universes after the first build (rounds of seeded changes, mutation campaign); appended to the level text
 ADDED = {
-    "C01": "team-blocker cases; fractional resolutions (7.5 / 2.5 / 0.5 min) in both implementations with the slot-clock clause; projects starting exactly at a working slot (slot index 0); the 'wide' universe (two ten-task bases x every subset of <= 2/3 of 28 feature toggles, compiled and pure-Python).",
-    "C02": "leave layouts beginning before the project start or ending inside a slot; zone written in single quotes; shift declared after use; the 'wide' universe.",
+    "C01": "team-blocker cases; fractional resolutions (7.5 / 2.5 / 0.5 min) in both implementations with the slot-clock clause; projects starting exactly at a working slot (slot index 0); the 'wide' universe (two ten-task bases x every subset of <= 2/3 of 38 feature toggles - incl. order of writing, every statement written twice, nested days off, inherited values, typed container dates - compiled and pure-Python); duplicate local ids.",
+    "C02": "leave layouts beginning before the project start or ending inside a slot; zone written in single quotes; shift declared after use; three days off of one kind written in every order; nested / touching / hour-boundary days off; group calendars overridden by a member's shift or plain hours; group leaves next to own leaves; a shift ending exactly at 0:00; the 'wide' universe.",
     "C03": "team blockers; team limits at task / group / member / grand-group / container / member-restricted placements; two alternatives; mixed-efficiency team clause; the 'wide' universe.",
-    "C04": "shape S6 (thorough); 'precedes' with options; one depends statement per predecessor; gaps in every unit incl. months and years (26-month window); the 'wide' universe.",
-    "C05": "limits in minutes / days / weeks; a daily AND a weekly limit on one entity; grand-group / grand-container placements; 50-minute resolution; mode B histories on the bare Limits object; the 'wide' universe.",
-    "C06": "backward milestones; milestones behind dated containers; clause frame-overlap; team blockers; the 'wide' universe.",
-    "C07": "container predecessors; the 'wide7' family (ten-task core-dialect bases x subsets of 25 toggles incl. DST window, night shift, minute-valued limits, eleven top-level tasks) in both implementations.",
-    "C08": "patterns gapchain / nestends / mid-hour bounds; clause idle-bound-slot; leave layouts of C02; the 'wide' universe.",
-    "C09": "special intruders (dependent, ALAP, milestone, 40 h), two scenarios, container-predecessor bases; the 'wide9' family; the 'alapext' family (open finding D55).",
-    "C10": "leaf kinds allocating a resource group (also as primary / alternative candidate); the 'wide' universe.",
-    "C11": "cycles x attached task kinds; alternative state vectors (ok / busy / never / slow / efficiency 0); later scenario bigger than the window; gaplength; macro rings; project durations in every unit; contradictory and barely-outside typed dates; efforts and gaps of thousands of years; 11 corpus texts.",
-    "C12": "operations engine / abort; 11 probes incl. calendar and macro variants of one project; four hash-order probes under hash seeds 0..7 (thorough 0..31).",
+    "C04": "shape S6 (thorough); 'precedes' with options; one depends statement per predecessor; gaps in every unit incl. months and years (26-month window); gaplength; the same predecessor at two levels / stated twice / via precedes and depends; a predecessor exactly on the project start; the 'wide' universe.",
+    "C05": "limits in minutes / days / weeks; a daily AND a weekly limit on one entity; grand-group / grand-container placements; 50-minute resolution; restricted entries naming resources declared later (task tree written first); a limited group that is also named as an alternative; mode B histories on the bare Limits object; the 'wide' universe.",
+    "C06": "backward milestones; milestones behind dated containers; milestones inside dated containers (inherited lower bound); clauses frame-overlap and sliver; team blockers; the 'wide' universe.",
+    "C07": "container predecessors; the 'wide7' family (ten-task core-dialect bases x subsets of 35 toggles incl. DST window, night shift, minute-valued limits, eleven top-level tasks) in both implementations.",
+    "C08": "patterns gapchain / nestends / mid-hour bounds; clause idle-bound-slot; gaplength at fine resolutions; an option entry before a plain entry; two successors with different gaps; leave layouts of C02; the 'wide' universe.",
+    "C09": "special intruders (dependent, ALAP, milestone, 40 h), two scenarios, container-predecessor bases; the 'wide9' family (also an added task that repeats an existing id); the 'inhprio' family (added priority between a container's and its leaves'); the 'alapext' family (open finding D55).",
+    "C10": "leaf kinds allocating a resource group (also as primary / alternative candidate); repeating local ids; a child that overrides the dated container's start; a second scenario in which one leaf cannot be scheduled; the 'wide' universe.",
+    "C11": "cycles x attached task kinds; alternative state vectors (ok / busy / never / slow / efficiency 0); later scenario bigger than the window; gaplength; macro rings; project durations in every unit; contradictory and barely-outside typed dates; efforts and gaps of thousands of years; 2 / 3 / 18 statements of each list-like kind in one body; mixed allocate statements; the contiguous flag x efficiency 0; 11 corpus texts.",
+    "C12": "operations engine / abort; 13 probes incl. two that use another probe's macros without defining them, calendar and macro variants of one project; six hash-order probes (two with everything named twice) under hash seeds 0..7 (thorough 0..31).",
     "C13": "resolutions that do not divide a day and 7.5 min; unsorted interval sets; TZ-environment grids; the far grid (90-year window); every whole-minute resolution 1..120 at slot starts; the 'wide' universe.",
-    "C14": "leap-year start; 9-, 20-, 60- and 110-week bases; five-week shutdowns; starts at the ISO-year boundary (2027-01-01, 2028-01-01, window ending 12-31).",
-    "C15": "25 bases incl. shared short ids, dotted relative references, the same relative text in two containers, calendars on resource groups; depends <-> precedes with options; comments inside macro bodies.",
-    "C16": "out-of-window and early-pin overrides; dated-container base; task-level ALAP anchors behind forward-declared predecessors; branching scenario trees.",
+    "C14": "leap-year start; 9-, 20-, 60- and 110-week bases; five-week shutdowns; starts at the ISO-year boundary (2027-01-01, 2028-01-01, window ending 12-31); month gaps; group limits; days off written latest-first.",
+    "C15": "30 bases incl. mixed depends lists, a container as successor (backward with an end; maxgap), shared short ids, dotted relative references, the same relative text in two containers, calendars on resource groups; depends <-> precedes with options; order of a depends list; comments inside macro bodies.",
+    "C16": "out-of-window and early-pin overrides; dated-container base; task-level ALAP anchors behind forward-declared predecessors; branching and four-deep scenario trees; one attribute overridden in two scenarios in both written orders (also with the plain value again); every statement written twice; large nested overrides.",
     "C17": "resolutions 7, 7.5, 25, 50 min (thorough 17 values); every whole-minute resolution 1..120 at slot starts; grids under TZ=Europe/Berlin and TZ=America/New_York across their switches; the far grid (90-year window, around 2^31 seconds).",
-    "C18": "9 projects incl. shared nested short ids, 11 rows, one task per day across a year end; two-scenario project with per-scenario reports.",
-    "C19": "inputs with CRLF, UTF-8 names, one task per day across two year ends; channels path / '-' / no argument / path with spaces.",
-    "C20": "odd (non-UTF-8) file names; report names escaping the output directory in several ways; two-process interleavings.",
+    "C18": "12 projects incl. teams listed against the declaration order, rates inherited from groups and overridden by rate 0, allocations with alternatives, a project whose first booking is slot 0, shared nested short ids, 11 rows, one task per day across a year end; two-scenario project with per-scenario reports.",
+    "C19": "inputs with CRLF, UTF-8 names, one task per day across two year ends; a task id stated twice (judged where accepted); channels path / '-' / no argument / path with spaces.",
+    "C20": "odd (non-UTF-8) file names; report names escaping the output directory in several ways; an existing -o file; two-process interleavings incl. -o files whose names share a stem.",
 }
 for _pid, _txt in ADDED.items():
     if _pid in CHECKS:
